@@ -346,6 +346,7 @@ def r09_5(ctx):
               "adjoint_params are no longer filtered by requires_grad: tensors not asked for would receive gradients",
               "filter(requires_grad, adjoint_params)")
     c19.r19_5(ctx)
+    c19.r19_8(ctx)
     ctx.floor("R09.5", 1)
 
 
